@@ -99,7 +99,19 @@ class BoomError(Exception):
         self.payload = payload
 
 
+class EmptyAggregateError(Exception):
+    """an aggregate error carrying a list of per-item failures - falsy when the list is empty (defines __len__)"""
+
+    def __init__(self, who):
+        super().__init__(f'aggregate {who}')
+        self.failures = []
+
+    def __len__(self):
+        return len(self.failures)
+
+
 RAISE = {
+    'falsy': lambda who: EmptyAggregateError(who),
     'VE': lambda who: ValueError(f'boom {who}'),
     'custom': lambda who: BoomError(who, {'k': [1, 2]}),
     'TO': lambda who: TimeoutError(f'handler-raised timeout {who}'),
@@ -240,6 +252,8 @@ class World:
             self.payload_of[tag] = pl % len(self.sc['payloads'])
             p = self.sc['payloads'][pl % len(self.sc['payloads'])]
             for k, v in p.items():
+                if v == '__callable__':
+                    v = print  # a value with no JSON form at all (a callback / handle carried in an Any field)
                 kw[k] = datetime.datetime.fromisoformat(v) if k == 'when' and isinstance(v, str) else v
         rt = (self.sc.get('rtypes') or {}).get(str(typ))
         if rt:
@@ -1006,6 +1020,14 @@ def run_scenario(sc: dict, *, keep_world: bool = False, spin_budget: int = 60_00
             bus._bvt_world = w
             bus.__init__(name=bus_name(sc, i), parallel_handlers=bool(b.get('par')), max_history_size=b.get('hist'), **kw)
             w.buses.append(bus)
+        for i in sc.get('shadow') or []:
+            # application code asks for a second bus with a name that is already taken (before the first one has dispatched anything):
+            # the library renames the newcomer with a warning; the existing bus must keep working in every respect
+            import warnings
+
+            with warnings.catch_warnings():
+                warnings.simplefilter('ignore')
+                w.keep.append(EventBus(name=bus_name(sc, i % len(w.buses))))
         for src, dst, pat in sc.get('fwd', []):
             w.buses[src].on(pattern_of(pat), w.buses[dst].dispatch)
         for hi, h in enumerate(sc['handlers']):
